@@ -79,8 +79,9 @@ def main():
         sid = a.id or (meta["property"] + "-" + os.path.basename(os.path.normpath(a.dir)))
         dst = os.path.join(HERE, "seeded", sid)
         os.makedirs(dst, exist_ok=True)
-        shutil.copy(os.path.join(a.dir, "patch.diff"), dst)
-        shutil.copy(os.path.join(a.dir, "demo.py"), dst)
+        if os.path.realpath(a.dir) != os.path.realpath(dst):
+            shutil.copy(os.path.join(a.dir, "patch.diff"), dst)
+            shutil.copy(os.path.join(a.dir, "demo.py"), dst)
         meta["breaks_property"] = meta.get("property")
         meta["confirmed"] = {"demo_exit_unchanged": res["demo_clean"], "demo_exit_with_change": res["demo_patched"],
                              "baseline_suite_with_change": res["suite_patched"],
